@@ -170,6 +170,22 @@ def pre_menu(scn):
     return out
 
 
+def dangle_menu(scn):
+    """one requirement between jobs of different schedulers (to be removed
+    by a sanitize() call before the run)"""
+    owner = {}
+    for node, parent in gen.walk(scn['tree']):
+        if parent is not None:
+            owner[node['name']] = parent['name']
+    names = sorted(owner)
+    out = []
+    for r in names:
+        for j in names:
+            if r != j and owner[r] != owner[j]:
+                out.append(('', 'dangle', [[r, j]]))
+    return out[:12]
+
+
 def late_menu(scn):
     """one existing requirement edge wired only after the pre-run queries"""
     out = []
@@ -194,6 +210,9 @@ def expand(item):
             menu += pre_menu(base)
             menu += late_menu(base)
             menu.append(('', 'peek', True))
+            menu += [('', 'build', 'addrev'), ('', 'build', 'update'),
+                     ('', 'build', 'lateattrs')]
+            menu += dangle_menu(base)
         for scn, _ in gen.variants(base, menu, k):
             if item.get('adm', True) and not gen.admissible(scn):
                 continue
